@@ -226,6 +226,9 @@ var c11Splices = []splice{
 	{name: "return-outside-function", stmt: "return 1", where: "rule-level"},
 	{name: "break-outside-loop", stmt: "break", where: "outside-loop"},
 	{name: "continue-outside-loop", stmt: "continue", where: "outside-loop"},
+	{name: "break-in-forin-header", stmt: "for (zz in match (1) { 1 => { break } }) { yy = 1 }", where: "outside-loop"},
+	{name: "continue-in-for-condition", stmt: "for (zz = 0; match (zz) { 0 => { continue } }; zz++) { yy = 1 }", where: "outside-loop"},
+	{name: "break-in-while-condition", stmt: "while (match (1) { 1 => { break } }) { yy = 1 }", where: "outside-loop"},
 	{name: "assign-to-literal", stmt: "1 = zz"},
 	{name: "assign-to-string-literal", stmt: "'s' = zz"},
 	{name: "assign-to-arithmetic", stmt: "aa + bb = 1"},
@@ -509,7 +512,7 @@ func c11Run(c *Case) {
 func init() {
 	register(&Prop{
 		ID: "C11", Level: "fault_enumeration",
-		Rule:          "fault enumeration. (a) syntax splices: a generated valid host program (starting with BEGIN { print 'early' }) x 22 splice kinds (6 illegal bytes, unmatched ) ] }, lone quote, missing operands, return outside a function, break/continue outside a loop, assignment to a literal / arithmetic result / array literal, unterminated string / regex) inserted at a random token boundary or statement position: outcome must be `syntax` with empty stdout. (b) runtime faults: 26 fault kinds x 35 syntactic positions (every operand slot, prefix operand, callee, call/method argument, array element, object value, index, member base, if/while condition, for initialiser/condition/post, for-in iterable, match subject/body expression/body block, print/printf argument, nested blocks) x 3 contexts (BEGIN; pattern rule on the 2nd of 3 elements; function called from END), plus rule pattern, return value, BEGINFILE, ENDFILE and -r selector placements; each planted statement is surrounded by print 'pre' / print 'post'; stdout prefix and `runtime` outcome vs the reference model. Sampled: the same faults planted at random positions of structured programs. Every cell is non-trivial; distinct by (fault, position, context) or program text.",
+		Rule:          "fault enumeration. (a) syntax splices: a generated valid host program (starting with BEGIN { print 'early' }) x 25 splice kinds (6 illegal bytes, unmatched ) ] }, lone quote, missing operands, return outside a function, break/continue outside a loop, assignment to a literal / arithmetic result / array literal, unterminated string / regex) inserted at a random token boundary or statement position: outcome must be `syntax` with empty stdout. (b) runtime faults: 26 fault kinds x 35 syntactic positions (every operand slot, prefix operand, callee, call/method argument, array element, object value, index, member base, if/while condition, for initialiser/condition/post, for-in iterable, match subject/body expression/body block, print/printf argument, nested blocks) x 3 contexts (BEGIN; pattern rule on the 2nd of 3 elements; function called from END), plus rule pattern, return value, BEGINFILE, ENDFILE and -r selector placements; each planted statement is surrounded by print 'pre' / print 'post'; stdout prefix and `runtime` outcome vs the reference model. Sampled: the same faults planted at random positions of structured programs. Every cell is non-trivial; distinct by (fault, position, context) or program text.",
 		NumCases:      c11Cases,
 		Run:           c11Run,
 		MinConclusive: func(tier string) int { return 8000 },
